@@ -31,8 +31,8 @@ type C03Params struct {
 	Rules    NetRules `json:"rules"`
 }
 
-var c03DevsServer = []string{"none", "wrong-ca", "wrong-name", "expired", "not-yet-valid", "other-key", "sig-flip", "sig-other-digest", "victim-leaf-behind-own-cert", "scheme-confusion"}
-var c03DevsClient = []string{"none", "no-cert", "wrong-ca", "expired", "other-key", "sig-flip", "sig-other-digest", "victim-leaf-behind-own-cert", "scheme-confusion"}
+var c03DevsServer = []string{"none", "wrong-ca", "wrong-name", "wrong-eku", "expired", "not-yet-valid", "other-key", "sig-flip", "sig-other-digest", "victim-leaf-behind-own-cert", "scheme-confusion"}
+var c03DevsClient = []string{"none", "no-cert", "wrong-ca", "wrong-eku", "expired", "other-key", "sig-flip", "sig-other-digest", "victim-leaf-behind-own-cert", "scheme-confusion"}
 var c03DevsPSK = []string{"none", "wrong-psk", "wrong-identity"}
 
 type c03Case struct {
@@ -52,7 +52,7 @@ func c03Cases() []c03Case {
 			}
 			for _, verify := range []bool{true, false} {
 				for _, dev := range c03DevsServer {
-					if dev == "scheme-confusion" && key != "ecdsa" {
+					if (dev == "scheme-confusion" || dev == "wrong-eku") && key != "ecdsa" {
 						continue
 					}
 					out = append(out, c03Case{ver, "c", "cert", key, verify, false, 0, dev})
@@ -65,7 +65,7 @@ func c03Cases() []c03Case {
 			}
 			for policy := 0; policy <= 4; policy++ {
 				for _, dev := range c03DevsClient {
-					if dev == "scheme-confusion" && key != "ecdsa" {
+					if (dev == "scheme-confusion" || dev == "wrong-eku") && key != "ecdsa" {
 						continue
 					}
 					out = append(out, c03Case{ver, "s", "cert", key, false, false, policy, dev})
@@ -319,6 +319,9 @@ func c03Run(rc *RunCtx, params any) {
 		spec.Cert = role + "-rogue"
 	case "wrong-name":
 		spec.Cert = "srv-wrongname"
+	case "wrong-eku":
+		// right CA, right name, valid - but the certificate is only good for the OTHER role
+		spec.Cert = map[string]string{"srv": "srv-clionly", "cli": "cli-srvonly"}[role]
 	case "expired":
 		spec.Cert = role + "-expired"
 	case "not-yet-valid":
